@@ -32,7 +32,8 @@ ASSUMPTIONS = ['threaded client runs under the FIFO schedule for the order '
                'PONG data is compared as decoded values (a PING whose text is '
                'a JSON literal comes back re-serialised); the literal null is '
                'not used as PING data']
-REQUIRED = ['pong_echo', 'handshake_extras', 'downstream_exactly_once',
+REQUIRED = ['pong_echo', 'handshake_extras', 'sends_from_connect_handler',
+            'downstream_exactly_once',
             'upstream_exactly_once',
             'binary_channel', 'url_oracle', 'upgrade_conduct',
             'silence_bound']
@@ -105,8 +106,26 @@ def run_conversation(rec, case):
 
     def V(key, msg):
         rec.viol(key, msg + ' | ' + desc + ' steps=%r' % (steps[-20:],), case)
+    # sends issued from inside the connect handler: they are queued while the
+    # client is still on its first transport and go out after the upgrade
+    up0 = []
+    if not plain and rng.random() < 0.35:
+        for k in range(rng.randint(1, 3)):
+            i, data, kd = mk_payload(rng, 'E', k)
+            up0.append((i, data, kd))
+        rec.count('sends_from_connect_handler')
     try:
         c, srv = w.cli, w.srv
+        if up0:
+            if kind == 'T':
+                def on_connect():
+                    for i, data, kd in up0:
+                        c.c.send(data)
+            else:
+                async def on_connect():
+                    for i, data, kd in up0:
+                        await c.c.send(data)
+            c.on_connect = on_connect
         tr = {'polling': ['polling'], 'websocket': ['websocket'],
               'upgrade': None}[transport]
         r = c.call('connect', 'http://srv.test/', transports=tr)
@@ -141,7 +160,7 @@ def run_conversation(rec, case):
             else:
                 srv.push(*[p if isinstance(p, str) else
                            'b' + base64.b64encode(p).decode() for p in packets])
-        down, up, pings = list(down0), [], []
+        down, up, pings = list(down0), list(up0), []
         nd = nu = 0
         silent_at = None
         nsteps = rng.randint(3, 14)
